@@ -800,7 +800,8 @@ pub fn expand_env(sh: &Shell, tokens: &mut types::Tokens) {
     let mut buff = Vec::new();
 
     for (sep, token) in tokens.iter() {
-        if sep == "`" || sep == "'" {
+        // `\` marks a word whose leading `$` was backslash-escaped
+        if sep == "`" || sep == "'" || sep == "\\" {
             idx += 1;
             continue;
         }
